@@ -418,9 +418,14 @@ class Sim:
         (1 s ticks, as the daemon's own select timeout) until every retransmission budget is spent.
         With settle=True additionally let DPD notice half-dead IKE_SAs."""
         ticks = 0
+        rounds = 0
         self.flush()
         while ticks < max_ticks:
             if self.w.inflight:
+                rounds += 1
+                if rounds > 50:            # traffic that never quiesces (a ping-pong): give up, the caller's checks will tell
+                    self.count('drain-gave-up')
+                    break
                 self.flush()
                 continue
             if not self.waiting():
@@ -438,7 +443,8 @@ class Sim:
                 t += 1
                 ticks += 1
             # finish whatever the settling started
-            while (self.w.inflight or self.waiting()) and ticks < max_ticks + horizon + 100:
+            while (self.w.inflight or self.waiting()) and ticks < max_ticks + horizon + 100 and rounds < 120:
+                rounds += 1
                 self.flush()
                 if self.waiting():
                     self.tick(1.0, ['tick', 1.0])
